@@ -146,6 +146,10 @@ def structure_problems(o, input_h):
             want = bl.get(p.element, 1.0)
             if abs(d - want) > math.sqrt(3) * 0.0005 + 1e-9:
                 probs.append("%s hydrogen %s at %.4f A from %s, tabulated %.2f" % (cname, a.residue_label, d, p.name, want))
+            # a hydrogen points away from the heavy atoms its parent is bonded to
+            for nb in p.bonded_atoms:
+                if nb.element != 'H' and dist((a.x, a.y, a.z), (nb.x, nb.y, nb.z)) < 0.8:
+                    probs.append("%s hydrogen %s on %s lies %.3f A from %s, a heavy neighbour of its parent" % (cname, a.residue_label, p.name, dist((a.x, a.y, a.z), (nb.x, nb.y, nb.z)), nb.name))
         for p in conf.atoms:
             hs = [b for b in p.bonded_atoms if b.element == 'H'] if p.element != 'H' else []
             for i in range(len(hs)):
@@ -165,6 +169,55 @@ def structure_problems(o, input_h):
                 if tot != EXPECT[rn]:
                     probs.append("%s %s %s side chain has %d of %d hydrogens" % (cname, rn, key[1], tot, EXPECT[rn]))
     return probs, nh
+
+
+TERMINAL_BONDS = {"SER": ("OG", "CB"), "THR": ("OG1", "CB"), "LYS": ("NZ", "CE"), "TYR": ("OH", "CZ"), "CYS": ("SG", "CB"), "MET": ("CE", "SD"),
+                  "ILE": ("CD1", "CG1"), "LEU": ("CD1", "CG"), "VAL": ("CG1", "CB"), "ALA": ("CB", "CA"), "THR2": ("CG2", "CB")}
+
+
+def axis_aligned(rnd, lines):
+    """the same fragment with one terminal atom (a single heavy neighbour) moved so that its bond lies exactly along a coordinate
+    axis - the configurations in which a construction based on an arbitrary perpendicular direction degenerates"""
+    cands = []
+    for i, l in enumerate(lines):
+        if not l.startswith("ATOM"):
+            continue
+        for rn, (t, par) in TERMINAL_BONDS.items():
+            if l[17:20] == rn[:3] and l[12:16].strip() == t:
+                js = [j for j, m in enumerate(lines) if m.startswith("ATOM") and pdbgen.res_key(m) == pdbgen.res_key(l) and m[12:16].strip() == par]
+                if js:
+                    cands.append((i, js[0]))
+    if not cands:
+        return None
+    i, j = rnd.choice(cands)
+    (tx, ty, tz), (px, py, pz) = pdbgen.coords(lines[i]), pdbgen.coords(lines[j])
+    u = [tx - px, ty - py, tz - pz]
+    n = math.sqrt(sum(c * c for c in u))
+    u = [c / n for c in u]
+    ax, sg = rnd.randrange(3), rnd.choice([1.0, -1.0])
+    e = [0.0, 0.0, 0.0]
+    e[ax] = sg
+    c = sum(a * b for a, b in zip(u, e))
+    if c < -0.95:                      # nearly opposite: turn onto the other sense of the same axis instead
+        e[ax], sg, c = -sg, -sg, -c
+    v = [u[1] * e[2] - u[2] * e[1], u[2] * e[0] - u[0] * e[2], u[0] * e[1] - u[1] * e[0]]
+    K = [[0.0, -v[2], v[1]], [v[2], 0.0, -v[0]], [-v[1], v[0], 0.0]]
+    K2 = [[sum(K[a][k] * K[k][b] for k in range(3)) for b in range(3)] for a in range(3)]
+    R = [[(1.0 if a == b else 0.0) + K[a][b] + K2[a][b] / (1.0 + c) for b in range(3)] for a in range(3)]
+    # rigid rotation of the whole fragment about the parent atom (geometry kept up to the rounding to 0.001 A) ...
+    out = []
+    for l in lines:
+        if pdbgen.is_atom(l):
+            x, y, z = pdbgen.coords(l)
+            d = [x - px, y - py, z - pz]
+            w = [sum(R[a][b] * d[b] for b in range(3)) for a in range(3)]
+            l = pdbgen.set_coords(l, px + w[0], py + w[1], pz + w[2])
+        out.append(l)
+    # ... and the terminal atom exactly on the axis through its parent
+    q = [px, py, pz]
+    q[ax] = q[ax] + sg * round(n, 3)
+    out[i] = pdbgen.set_coords(out[i], *q)
+    return out, (lines[i][12:26], "xyz"[ax], sg)
 
 
 def h_positions(o):
@@ -259,6 +312,21 @@ def run(ctx):
                 if len(ps) != len(qs) or any(min(dist(p, q) for q in qs) > 0.005 for p in ps):
                     obad.append((name, k, "hydrogens on %r differ: %r vs %r" % (key, ps[:2], qs[:2]), text))
                     break
+    # bonds exactly along a coordinate axis (under --protonate-all every terminal atom is protonated)
+    for i in range(12 if ctx.quick() else 120):
+        lines, ids = pdbgen.multichain(rnd, nchains=1)
+        r = axis_aligned(rnd, lines)
+        if r is None:
+            continue
+        al, what = r
+        o = observe.run(pdbgen.text(al), ["--protonate-all"], want_text=False)
+        ctx.case(key=("axis", what, hash(pdbgen.text(al))))
+        ctx.count("axis-aligned terminal bonds")
+        if o.error:
+            continue
+        probs, nh = structure_problems(o, set())
+        if probs:
+            sbad.append(("axis%d %r" % (i, what), ["--protonate-all"], probs[:3], pdbgen.text(al)))
     for b in sbad[:3]:
         ctx.violate("hydrogen:" + b[2][0].split(" ", 1)[1][:30], "%s %r: %s" % (b[0], b[1], "; ".join(b[2])), dict(pdb=b[3], args=b[1], problems=b[2]))
     ctx.oblige("spec: each added hydrogen has one heavy parent at the tabulated length, H-H >= 0.5 A, full complement on complete residues", not sbad,
